@@ -3,7 +3,7 @@ CONSTANTS Design = "copy"
           StopPolicy = "drain"
           Creation = "defaults"
           Modes = {"queue"}
-          NRec = 3
+          NRec = 2
           Sizes = {1, 6, 20}
           Times = {1}
           MaxBufs = {0, 10}
